@@ -131,10 +131,12 @@ func runHistory(seed int64, steps int) []string {
 		}
 	}
 	pickColl := func() *histColl { return pool[rng.Intn(len(pool))] }
+	var lastMapped *histColl
+	lastKind := 0
 	for s := 0; s < steps; s++ {
 		var op string
 		h := pickColl()
-		switch rng.Intn(9) {
+		switch rng.Intn(12) {
 		case 0:
 			op = "sequence"
 			g := pickColl()
@@ -183,6 +185,18 @@ func runHistory(seed int64, steps int) []string {
 		case 8:
 			op = "setcallback"
 			_ = guarded(5*time.Second, func() { _ = h.c.SetCallback(func(f func(T0) T0) {}) })
+		case 9, 10, 11:
+			// map-valued annotations, applied again and again to the same providers with different types
+			tabs := []map[int]func(any) nject.Provider{mustConsumeFn, looseFn, consOptFn, shadowOKFn}
+			k := rng.Intn(len(tabs))
+			if lastMapped != nil && rng.Intn(3) != 0 {
+				// annotate an already annotated collection again, same kind of annotation, another type
+				h, k = lastMapped, lastKind
+			}
+			t := []int{0, 1, 2, 3}[rng.Intn(4)]
+			op = fmt.Sprintf("mapannotate%d-%d", k, t)
+			add(nject.Sequence(fmt.Sprintf("m%d", s), tabs[k][t](h.c)), op)
+			lastMapped, lastKind = pool[len(pool)-1], k
 		}
 		pool[len(pool)-1].behave = behave(pool[len(pool)-1].c)
 		check(op)
